@@ -179,6 +179,30 @@ theorem resolve_spec (db : Db) (path : List Nat) (keep : Bool) (al : Already) (h
           · simp at h; obtain ⟨rfl, _⟩ := h; exact hd'
         · simp at h; obtain ⟨rfl, _⟩ := h; exact hd'
 
+/-- the product cache hands out a declaration of the same name and version name -/
+theorem pickDecl_spec (db : Db) (c : PCache) (d : Decl) (n : Name) (hc : Canon db d) (hn : d.name = n) :
+    Canon db (pickDecl db c d) ∧ (pickDecl db c d).name = n := by
+  unfold pickDecl
+  cases hg : aget c (d.name, d.ver.1) with
+  | none => exact ⟨hc, hn⟩
+  | some k =>
+    simp only
+    cases hl : db.lookup (d.name, (d.ver.1, k)) with
+    | none => simpa using ⟨hc, hn⟩
+    | some d' =>
+      obtain ⟨h1, h2⟩ := lookup_named db d.name (d.ver.1, k) d' hl
+      simpa using ⟨h1, by rw [h2]; exact hn⟩
+
+theorem pickDecl_ver (db : Db) (c : PCache) (d : Decl) : (pickDecl db c d).ver.1 = d.ver.1 := by
+  unfold pickDecl
+  cases hg : aget c (d.name, d.ver.1) with
+  | none => rfl
+  | some k =>
+    simp only
+    cases hl : db.lookup (d.name, (d.ver.1, k)) with
+    | none => rfl
+    | some d' => simp; rw [(lookup_some db _ d' hl).2.2]
+
 /-- `alreadySetupProducts` as rebuilt from the environment at depth 0 -/
 theorem alreadyOfEnv_ok (db : Db) (e : Env) : AlreadyOK db (alreadyOfEnv db e) := by
   intro n d r h
